@@ -7,6 +7,12 @@ HERE = os.path.dirname(os.path.abspath(__file__))
 
 # property -> (technique, level text, level note, design ref)
 CLAIMED = {
+    "C11": (
+        "runtime history + executable-model monitor: plain Vec<u64> model with per-view cell-index lists, unique ids per write, every operation re-derived from the root along its slicing path, whole backing store compared with the model after every operation; expected-panic oracle for every out-of-bounds access, slicing and constructor; exhaustive small domain + random histories; Miri on a reduced workload (thorough)",
+        "Exhaustive: all buffer dims 0..3 (thorough 0..4) squared × all first- and second-level sub-rectangles × every operation (get/get_mut, point and row indexing (mutable too), rows/iter (mutable too), fill, fill_with, copy_from, dims) with in-bounds and just-out-of-bounds arguments, rotating through every range spelling ((a..b,c..d), inclusive, ..b, a.., (..,..), .., Range<Vec2u>, one-axis forms). Random: histories of 20..120 steps on buffers ≤ 24x24 rooted at Buf2 or at MutSlice2::new with stride ≥ width and surplus data, paths to depth 3, incl. zero-width/height. Reads are cross-checked through slice() and slice_mut() paths. Constructors: accept iff the data can hold the dims.",
+        "No unsafe in the harness: the store is compared between operations. Row indexing on zero-width views is counted, not judged.",
+        "DESIGN.md §5 C11",
+    ),
     "C06": (
         "runtime metamorphic monitor over render-call histories: bit-exact comparison of final colour/depth buffers across permutations, ordered partitions into separate calls and all depth_sort settings, anchored on a per-pixel nearest-of-solo-layers model; painter clause checked on scenes with disjoint depth slabs",
         "For each scene of 2..10 overlapping, interpenetrating, nested, coplanar-offset and clipped triangles (buffers ≤ 48 px) 20..40 histories are rendered — all permutations for n ≤ 4 (24 random ones otherwise), random ordered partitions into separate render() calls, every depth_sort setting — and every final buffer must equal, bit for bit, the image whose every pixel holds the nearest fragment among the solo layers (exact ties excluded and counted). Scenes with disjoint depth slabs (through the library's perspective matrix, partly clipped) must render identically with depth test off + BackToFront and with the depth buffer.",
